@@ -63,6 +63,12 @@ func (e *Engine) CensusObligations(prop string) []*Obligation {
 					found++
 					ok := false
 					for _, allowed := range cs.OnlyIn {
+						if strings.HasSuffix(allowed, "!") { // "f!": the function itself, not its closures
+							if key == strings.TrimSuffix(allowed, "!") {
+								ok = true
+							}
+							continue
+						}
 						if key == allowed || strings.HasPrefix(key, allowed+"$") {
 							ok = true
 						}
